@@ -304,3 +304,12 @@ _run_c16_prev2 = run
 def run(res, facts, tier):
     _run_c16_prev2(res, facts, tier)
     r5_reentrancy(res, facts)
+
+
+_run_c16_prev6 = run
+
+
+def run(res, facts, tier):
+    _run_c16_prev6(res, facts, tier)
+    from . import c16_cache
+    c16_cache.run_rule(res, facts, tier)
